@@ -2,3 +2,4 @@ import Proofs.C17
 import Proofs.C01
 import Proofs.C03
 import Proofs.C15
+import Proofs.C19
